@@ -18,7 +18,7 @@ RULE = ("random values nested to depth <=6 over list, tuple (0/1/n elements), di
 ASSUMPTIONS = ["eval namespace maps the constructors and the text \"<class 'int'>\" (Python's own repr of a "
                "default_factory) back to the type",
                "string leaves avoid the literal text '... +' so abbreviation markers can be counted"]
-REQUIRED = ["mon.pretty_renderable", "mon.node_rerendered", "mon.eval_back", "mon.equals_repr_when_fits", "mon.layout", "mon.cycle", "mon.max_length",
+REQUIRED = ["mon.after_interrupted_call", "mon.pretty_renderable", "mon.node_rerendered", "mon.eval_back", "mon.equals_repr_when_fits", "mon.layout", "mon.cycle", "mon.max_length",
             "mon.max_string"]
 MIN_NONTRIVIAL = {"quick": 3000, "thorough": 150000}
 
@@ -199,6 +199,19 @@ def wl_values(ctx, rng, case_no):
     max_width = rng.choice([1, 2, 5, 10, 20, 40, 80, 80, 120, 200, rng.randint(1, 200)])
     indent_size = rng.choice([4, 4, 2, 1, 8])
     expand_all = rng.random() < 0.15
+    if rng.random() < 0.05 and isinstance(v, (list, dict, tuple, set)):
+        # history: an earlier pretty-print of a structure holding this very value was INTERRUPTED (Ctrl-C while a
+        # __repr__ ran); what is printed afterwards must not depend on that
+        class _Interrupted(KeyboardInterrupt):
+            pass
+
+        class _Bomb:
+            def __repr__(self):
+                raise _Interrupted()
+        try:
+            pretty_repr({"outer": [v, [v, _Bomb()]]}, max_width=rng.choice([10, 80]))
+        except _Interrupted:
+            ctx.count("mon.after_interrupted_call")
     route = "value"
     earlier = []
     if rng.random() < 0.25:
